@@ -487,8 +487,14 @@ def run_property(prop, tier='quick', seed=0, replay=None):
         print('implementation:', json.dumps(outs[0], default=str)[:1000])
         print('model/spec    :', coq_show(prop, terms[0]))
         print('code          :', codes[0], errs)
-        if codes[0] % 10 in (2, 3) or errs:
-            print('VIOLATION property=%s replay=%s' % (pid, replay))
+        known_g = {f.get('guard_index') for f in load_known(pid) if f.get('status', 'open') == 'open'}
+        if codes[0] % 10 == 2 and codes[0] // 10 in known_g:
+            print('KNOWN-FINDING: property=%s the replayed case is outside guard %d of a recorded open finding '
+                  'and the implementation answers as the faithful model does' % (pid, codes[0] // 10))
+            return 0
+        if codes[0] % 10 in (1, 2, 3) or errs:
+            print('VIOLATION property=%s replay=%s%s' % (
+                pid, replay, ' no-failing-input-found' if codes[0] % 10 == 1 else ''))
             return 1
         return 0
 
